@@ -21,6 +21,8 @@ EvDiff(ev) ==
             (IF ev.std.out = ev.alloc.out /\ ev.std.outcome = ev.alloc.outcome THEN {} ELSE {"configs_decode"})
        \cup (IF ev.std.text = ev.alloc.text THEN {} ELSE {"configs_text"})
        \cup (IF "serde" \in DOMAIN ev.std => ev.std.serde = ev.std.out THEN {} ELSE {"serde_frame"})
+       \* ... and as a whole value (Debug form), for what the projection does not tell apart
+       \cup (IF "serde_eq" \in DOMAIN ev.std => ev.std.serde_eq = 1 THEN {} ELSE {"serde_frame_equality"})
     [] ev.ev = "cpair" -> IF ev.std = ev.alloc THEN {} ELSE {"configs_pair"}
     [] ev.ev = "ctrack" -> (IF ev.std.planes = ev.alloc.planes THEN {} ELSE {"configs_tracker"})
                            \cup (IF ev.std.added = ev.alloc.added /\ ev.std.outcome = ev.alloc.outcome THEN {} ELSE {"configs_added"})
